@@ -177,3 +177,57 @@ Fixpoint disable_seen (wakes : list wake) : bool :=
 (* nobody calls disable() while the loop of run() is going round *)
 Definition undisturbed (wakes : list wake) : Prop :=
   Forall (fun w => wake_disable w = false) wakes.
+
+(* ------------------------------------------------------------------ *)
+(* Call sequences in which a period is NOT followed by disable()
+   (TimedRobot: autonomousInit -> start(), autonomousPeriodic -> periodic(),
+   and a robot that never calls disable() from disabledInit -- the class
+   documentation allows that: "It is okay to not call disable() if you do not
+   need on_disable").  Then the period simply ends when the next one begins. *)
+
+(* is disable() called before the next period begins? *)
+Fixpoint closed_before_next (ops : list op) : bool :=
+  match ops with
+  | [] => false
+  | Disable :: _ => true
+  | Start _ _ :: _ => false
+  | RunPeriod _ _ _ :: _ => false
+  | _ :: r => closed_before_next r
+  end.
+
+(* the periods of a call sequence, whatever its shape: the selection in force
+   when each one begins, and whether it is ended by a disable() before the
+   next one begins (a run() period always is: run() calls disable() itself) *)
+Fixpoint periods (ops : list op) : list (sel * bool) :=
+  match ops with
+  | [] => []
+  | Start s _ :: r => (s, closed_before_next r) :: periods r
+  | RunPeriod s _ _ :: r => (s, true) :: periods r
+  | _ :: r => periods r
+  end.
+
+(* The language of the property over such periods: the mode selected when the
+   period begins -- and no other -- gets on_enable . on_iteration(t)* with
+   0 <= t non-decreasing, followed by on_disable exactly when the period is
+   ended by a disable(); a period whose selection yields no mode is silent. *)
+Inductive conforms_marked (r : selector) : list (sel * bool) -> list event -> Prop :=
+| cm_nil : conforms_marked r [] []
+| cm_none : forall s c ps tr,
+    select r s = None -> conforms_marked r ps tr -> conforms_marked r ((s, c) :: ps) tr
+| cm_closed : forall s ps m ts tr,
+    select r s = Some m -> nondecreasing ts -> Forall (fun t => 0 <= t)%Z ts ->
+    conforms_marked r ps tr ->
+    conforms_marked r ((s, true) :: ps) (OnEnable m :: map (OnIteration m) ts ++ OnDisable m :: tr)
+| cm_left_open : forall s ps m ts tr,
+    select r s = Some m -> nondecreasing ts -> Forall (fun t => 0 <= t)%Z ts ->
+    conforms_marked r ps tr ->
+    conforms_marked r ((s, false) :: ps) (OnEnable m :: map (OnIteration m) ts ++ tr).
+
+(* periodic() is not called before the first start() (self.timer exists) *)
+Fixpoint timer_ready (started : bool) (ops : list op) : bool :=
+  match ops with
+  | [] => true
+  | Start _ _ :: r => timer_ready true r
+  | Periodic _ :: r => started && timer_ready started r
+  | _ :: r => timer_ready started r
+  end.
